@@ -661,8 +661,14 @@ func (x *Exec) loop(st *State, node ast.Stmt, ord int, label string, mod map[typ
 	}
 	sort.Slice(objs, func(i, j int) bool { return objs[i].Pos() < objs[j].Pos() })
 	head := st.clone()
+	whole := x.wholeAssignedIn(node)
 	for _, o := range objs {
+		old, had := head.vars[o]
 		x.havocVar(head, o)
+		if had && old.Sort.Kind == KMap && !whole[o] {
+			// only element writes / deletes inside the loop: nil-ness of the map cannot change
+			x.c().axiom(tEq(x.c().mapNil(head.vars[o]), x.c().mapNil(old)))
+		}
 	}
 	ghostMod := map[string]bool{}
 	for _, gs := range append(append([]GhostStmt{}, spec.Head...), spec.End...) {
@@ -1001,4 +1007,36 @@ func (x *Exec) inlineClosure(st *State, call *ast.CallExpr, lit *ast.FuncLit) []
 		x.unsupported(call, "inlined closure result count mismatch")
 	}
 	return rets
+}
+
+// wholeAssignedIn: variables assigned as a whole (x = ..., x := ...) inside a loop, as opposed to element/field writes.
+func (x *Exec) wholeAssignedIn(n ast.Node) map[types.Object]bool {
+	out := map[types.Object]bool{}
+	ast.Inspect(n, func(m ast.Node) bool {
+		switch s := m.(type) {
+		case *ast.AssignStmt:
+			for _, l := range s.Lhs {
+				if id, ok := ast.Unparen(l).(*ast.Ident); ok {
+					if o := x.objOf(id); o != nil {
+						out[o] = true
+					}
+				}
+			}
+		case *ast.CallExpr:
+			// passing &x or a method with pointer receiver may replace the value
+			for _, a := range s.Args {
+				if u, ok := ast.Unparen(a).(*ast.UnaryExpr); ok && u.Op == token.AND {
+					if id, ok := ast.Unparen(u.X).(*ast.Ident); ok {
+						if o := x.objOf(id); o != nil {
+							out[o] = true
+						}
+					}
+				}
+			}
+		case *ast.FuncLit:
+			return false
+		}
+		return true
+	})
+	return out
 }
